@@ -77,7 +77,7 @@ def gen_program(rng, nrg, colnames, index_cols, scheme, nrows, filecols=None, mu
                 chain.append({"t": "pick", "i": int(rng.integers(-nrg, nrg))})
         elif k == "filelike":
             if scheme == "simple" and not chain:
-                chain.append({"t": "filelike", "kind": ["file", "bytesio"][int(rng.integers(0, 2))]})
+                chain.append({"t": "filelike", "kind": ["file", "bytesio", "shared"][int(rng.integers(0, 3))]})
         elif k in ("pickle", "deepcopy") and any(c["t"] == "filelike" for c in chain):
             continue   # a handle wrapping an open file object cannot be pickled (file objects are not picklable)
         else:
@@ -104,6 +104,18 @@ def gen_program(rng, nrg, colnames, index_cols, scheme, nrows, filecols=None, mu
     return {"chain": chain, "term": term}
 
 
+class _SharedByCaller(io.FileIO):
+    """A file object the caller goes on using between the library's reads (it looks at the magic bytes now and then)."""
+    _vf_shared = True
+
+    def __init__(self, path):
+        super().__init__(path, "rb")
+
+    def caller_uses_it(self):
+        self.seek(0)
+        self.read(4)
+
+
 def apply_chain(pf, chain, path, sel, holder):
     """Apply handle transforms; `sel` is the list of selected row-group indices (model)."""
     import fastparquet
@@ -126,6 +138,12 @@ def apply_chain(pf, chain, path, sel, holder):
             if st["kind"] == "file":
                 f = open(path, "rb")
                 holder.append(f)
+            elif st["kind"] == "shared":
+                # ONE file object per case, which every such program opens a handle on and which the caller itself keeps using
+                f = next((x for x in holder if getattr(x, "_vf_shared", False)), None)
+                if f is None:
+                    f = _SharedByCaller(path)
+                    holder.append(f)
             else:
                 with open(path, "rb") as fh:
                     f = io.BytesIO(fh.read())
@@ -241,12 +259,21 @@ def run_case(case):
                     # one list object per distinct selection, reused by every later read of this case (as a caller holding a selection does)
                     kw["columns"] = shared_sel.setdefault(tuple(cols), list(cols))
                     counters["reads_with_a_reused_selection_object"] = counters.get("reads_with_a_reused_selection_object", 0) + 1
+                    if k % 5 == 3:
+                        kw["columns"] = tuple(cols)        # (a tuple is a selection too)
+                        counters["selections_given_as_tuples"] = counters.get("selections_given_as_tuples", 0) + 1
                 if "index" in term:
                     kw["index"] = index
                 if term["t"] == "to_pandas":
                     got = h.to_pandas(**kw)
                 elif term["t"] == "iter":
-                    parts = list(h.iter_row_groups(**kw))
+                    shared_ = next((x for x in holder if getattr(x, "_vf_shared", False)), None) if any(c_.get("kind") == "shared" for c_ in prog["chain"]) else None
+                    parts = []
+                    for part_ in h.iter_row_groups(**kw):
+                        parts.append(part_)
+                        if shared_ is not None:
+                            shared_.caller_uses_it()         # between two partial reads the caller moves its file object
+                            counters["caller_moved_shared_file_between_reads"] = counters.get("caller_moved_shared_file_between_reads", 0) + 1
                     counters["iter_parts"] = counters.get("iter_parts", 0) + len(parts)
                     if any(len(p_) == 0 for p_ in parts):
                         res["failures"].append({"kind": "iter_yielded_empty", "prog": prog})
@@ -299,7 +326,7 @@ def run_case(case):
                                         "partition_on": opts.get("partition_on") or [], **C.exc_shape(e)})
                 continue
             finally:
-                if cols is not None and kw.get("columns") is not None and kw["columns"] != list(cols):
+                if cols is not None and kw.get("columns") is not None and list(kw["columns"]) != list(cols):
                     res["failures"].append({"kind": "read_changed_the_callers_selection", "prog": prog, "selection_before": list(cols), "selection_after": list(kw["columns"])[:12]})
                     shared_sel[tuple(cols)] = list(cols)
             if got is None:
@@ -397,4 +424,4 @@ def coverage_extra(agg):
 
 
 def required(tier):
-    return {"programs_compared": 2000, "x:slice": 100, "x:pickle": 100, "x:deepcopy": 50, "x:filelike": 10, "t:head": 100, "t:iter": 100, "reads_with_a_reused_selection_object": 500, "programs_with_a_partition_column_as_index": 30}
+    return {"programs_compared": 2000, "x:slice": 100, "x:pickle": 100, "x:deepcopy": 50, "x:filelike": 10, "t:head": 100, "t:iter": 100, "reads_with_a_reused_selection_object": 500, "programs_with_a_partition_column_as_index": 30, "caller_moved_shared_file_between_reads": 8, "selections_given_as_tuples": 200}
